@@ -428,7 +428,6 @@ def gen_pabf(r, k, T):
     c["fam"] = "pabf"
     c["tags"] = ["pabf", "freq=%d" % freq] + c["tags"][1:]
     c["sigtags"] = []
-    c["collapse"] = "all"
     return c
 
 
